@@ -1010,8 +1010,12 @@ def matrix_inverse_pth_root_eigh(
   if padding_start is not None:
     e *= jnp.flip(ix)
   mm = functools.partial(jnp.matmul, precision=precision)
-  inv_e = jnp.where(e == 0.0, 0.0,
-                    jnp.power(jnp.maximum(e, ridge_epsilon), alpha))
+  # With a zero ridge a rounding-level negative eigenvalue of a singular matrix
+  # would be clipped to 0 and raised to a negative power (inf): treat it like
+  # an exact zero.
+  clipped_e = jnp.maximum(e, ridge_epsilon)
+  inv_e = jnp.where(jnp.logical_or(e == 0.0, clipped_e <= 0.0), 0.0,
+                    jnp.power(clipped_e, alpha))
   val = mm(mm(u, jnp.diag(inv_e)), u.T)
   root = u * jnp.sqrt(inv_e)
   val = mm(root, root.T)
